@@ -27,6 +27,7 @@ import (
 	"fmt"
 	"io"
 	"strconv"
+	"strings"
 	"sync"
 )
 
@@ -49,11 +50,13 @@ const (
 
 // stream state for server side
 //
-//      recv S       recv ES                   send ES
+//	recv S       recv ES                   send ES
+//
 // Idle ------> Open -------> HalfClosedRemote -------> Closed
-//   |                               ^         send R
-//   |        send US                |         recv R
-//   +-------------------------------+
+//
+//	|                               ^         send R
+//	|        send US                |         recv R
+//	+-------------------------------+
 //
 // send: endpoint sends this frame
 // recv: endpoint receives this frame
@@ -149,6 +152,46 @@ func validHeader(v string) bool {
 		// names MUST be converted to lowercase prior to their
 		// encoding in SPDY. "
 		if r >= 127 || ('A' <= r && r <= 'Z') {
+			return false
+		}
+	}
+	return true
+}
+
+// validToken reports whether v is a token (RFC 7230, section 3.2.6): the
+// form of a method and of a header field name.
+func validToken(v string) bool {
+	if len(v) == 0 {
+		return false
+	}
+	for i := 0; i < len(v); i++ {
+		c := v[i]
+		switch {
+		case 'a' <= c && c <= 'z', 'A' <= c && c <= 'Z', '0' <= c && c <= '9':
+		case strings.IndexByte("!#$%&'*+-.^_`|~", c) >= 0:
+		default:
+			return false
+		}
+	}
+	return true
+}
+
+// validFieldValue reports whether v may be used as a header field value: no
+// control byte other than HTAB (RFC 7230, section 3.2.6).
+func validFieldValue(v string) bool {
+	for i := 0; i < len(v); i++ {
+		if c := v[i]; (c < 0x20 && c != '\t') || c == 0x7f {
+			return false
+		}
+	}
+	return true
+}
+
+// validHost reports whether v may be used as the Host of a request: no
+// whitespace or control byte.
+func validHost(v string) bool {
+	for i := 0; i < len(v); i++ {
+		if c := v[i]; c <= 0x20 || c == 0x7f {
 			return false
 		}
 	}
